@@ -814,24 +814,44 @@ def r03_5(ctx, counts) -> RuleResult:
             'Decimal': {'DecimalException', 'InvalidOperation', 'ArithmeticError', 'Exception',
                         'BaseException'}}
     conv = 0
+    # the conversions may have been extracted into private helpers of the parser class that
+    # receive a group as argument: follow `self.<helper>(…group…)` one level
+    sites: list[tuple[FuncInfo, ast.Call, dict]] = []
     for n in walk_local(adv.node):
         if isinstance(n, ast.Call) and dotted(n.func).split('.')[-1] in NEED and n.args and \
                 isinstance(n.args[0], ast.Name) and n.args[0].id in group_names:
+            sites.append((adv, n, emap))
+        if isinstance(n, ast.Call) and isinstance(n.func, ast.Attribute) and \
+                dotted(n.func.value) == 'self' and any(
+                    isinstance(a, ast.Name) and a.id in group_names for a in n.args):
+            helper = parser.find_method(n.func.attr)
+            if helper is None:
+                continue
+            hp = [q for q in helper.params() if q != 'self']
+            received = {hp[i] for i, a in enumerate(n.args)
+                        if i < len(hp) and isinstance(a, ast.Name) and a.id in group_names}
+            hmap = enclosing_map(helper.node)
+            for m_ in walk_local(helper.node):
+                if isinstance(m_, ast.Call) and dotted(m_.func).split('.')[-1] in NEED and \
+                        m_.args and isinstance(m_.args[0], ast.Name) and m_.args[0].id in received:
+                    sites.append((helper, m_, hmap))
+    for host, n, emap_ in sites:
+        if True:
             conv += 1
             ctor = dotted(n.func).split('.')[-1]
             caught = False
-            for enc in emap[id(n)]:
+            for enc in emap_[id(n)]:
                 if isinstance(enc, ast.Try) and any(any(y is n for y in ast.walk(b))
                                                     for b in enc.body):
                     for h in enc.handlers:
-                        if {x.split('.')[-1] for x in handler_names(model, adv.module, h)} \
+                        if {x.split('.')[-1] for x in handler_names(model, host.module, h)} \
                                 & NEED[ctor]:
                             caught = True
-            res.instances.append(f'advance: {stmt_text(n)} guarded={caught}')
+            res.instances.append(f'{host.name}: {stmt_text(n)} guarded={caught}')
             if caught:
                 res.ok()
             else:
-                res.fail(finding('R03.5', adv, n, f'unguarded {stmt_text(n)}',
+                res.fail(finding('R03.5', host, n, f'unguarded {stmt_text(n)}',
                                  f'`{stmt_text(n)}` converts lexed source text outside a try '
                                  f'that catches {sorted(NEED[ctor])[-1]}: its sibling conversions '
                                  f'are guarded; a literal the constructor rejects (e.g. an '
